@@ -12,6 +12,10 @@ UNITS = W.UNITS
 TY.hash = lambda t: ("H", t)
 
 
+import os
+MASK1 = int(os.environ.get("VQ_MASK", "-1"))
+
+
 def mkT(mask, y, m, d, h, mi, x, pi, a, b):
     t = Time(year=y if mask & 1 else None, month=m if mask & 2 else None, day=d if mask & 4 else None,
              hour=h if mask & 8 else None, minute=mi if mask & 16 else None, DOW=x if mask & 32 else None,
@@ -27,12 +31,14 @@ def kT(t):
 def ob_eq_time(k1: int, y1: int, m1: int, d1: int, h1: int, i1: int, x1: int, p1: int, a1: int, b1: int,
                k2: int, y2: int, m2: int, d2: int, h2: int, i2: int, x2: int, p2: int, a2: int, b2: int) -> bool:
     """
-    pre: 0 <= k1 < 128 and 0 <= k2 < 128 and 1 <= p1 <= 3 and 1 <= p2 <= 3
+    pre: 0 <= k1 < 128 and 0 <= k2 < 128 and 1 <= p1 <= 3 and 1 <= p2 <= 3 and (MASK1 < 0 or k1 == MASK1)
     pre: 0 <= y1 <= 9999 and 0 <= y2 <= 9999 and 1 <= m1 <= 12 and 1 <= m2 <= 12 and 1 <= d1 <= 31 and 1 <= d2 <= 31
     pre: 0 <= h1 <= 23 and 0 <= h2 <= 23 and 0 <= i1 <= 59 and 0 <= i2 <= 59 and 0 <= x1 <= 6 and 0 <= x2 <= 6
     pre: 0 <= a1 <= b1 <= 50 and 0 <= a2 <= b2 <= 50
     post: _
     """
+    if MASK1 >= 0:
+        k1 = MASK1
     s, t = mkT(k1, y1, m1, d1, h1, i1, x1, p1, a1, b1), mkT(k2, y2, m2, d2, h2, i2, x2, p2, a2, b2)
     same = kT(s) == kT(t)
     if (s == t) != same or (t == s) != same or (s != t) == same:
